@@ -141,3 +141,30 @@ fn concat_arrays__all_absent_is_absent() {
     kani::cover!(true);
     std::mem::forget(got);
 }
+
+/// Smallest shape with an absent argument BETWEEN present ones: {x}, absent, {y}
+/// must give {x, y}.
+#[kani::proof]
+#[kani::stub(std::mem::drop, crate::lhs_types::verif_kani::common::mem_drop__releases_nothing_observable)]
+#[kani::unwind(3)]
+fn concat_arrays__absent_between_present() {
+    let x: i64 = kani::any();
+    let y: i64 = kani::any();
+    let ty = Type::Array(Type::Int.into());
+    let args: [Result<LhsValue<'static>, Type>; 3] = [Ok(LhsValue::Array(one(x))), Err(ty), Ok(LhsValue::Array(one(y)))];
+    let mut it = args.into_iter();
+    let got = concat_impl(&mut it);
+    match &got {
+        Some(LhsValue::Array(arr)) => {
+            assert!(arr.len() == 2, "every present argument contributes");
+            expect_elem(arr, 0, x);
+            expect_elem(arr, 1, y);
+        }
+        _ => {
+            assert!(false, "present array arguments give an array result");
+        }
+    }
+    kani::cover!(true);
+    std::mem::forget(got);
+    std::mem::forget(it);
+}
